@@ -266,8 +266,9 @@ theorem check_none_by_head (r : Rule) (hr : r ∈ finRules) (st : St)
   simp [St.check, fin_none_by_head r hr st.prev st.rest h]
 
 theorem heads_all : heads .lparen = [40] ∧ heads .rparen = [41] ∧ heads .kwIn = [105] ∧ heads .kwNot = [110] ∧
-    heads .boolop = [111, 97] ∧ heads .op = [61, 61, 126, 33, 60, 62, 60, 62] ∧
+    (∀ c ∈ heads .boolop, c ∈ [111, 97]) ∧ (∀ c ∈ heads .op, c ∈ [61, 126, 33, 60, 62]) ∧
     (∀ c ∈ heads .variable, c ∈ [112, 111, 115, 105, 101]) := by decide +kernel
+    -- (membership, not list equality: the order and multiplicity of a rule's alternatives is free to change)
 
 /-- first characters of the variable spellings -/
 def headIn (l : List Nat) (s : Str) : Bool := s.head?.any fun c => l.contains c
